@@ -31,7 +31,7 @@ type frame struct {
 
 // ndEntry is one call of a nondet function, in call order (the replay log).
 type ndEntry struct {
-	Kind  string  // bytes | choice | int | bool
+	Kind  string // bytes | choice | int | bool
 	Name  string
 	N     int     // choice: decision; bytes: length
 	Terms []*Term // bytes: one 8-bit var per byte; int/bool: one var
@@ -44,33 +44,34 @@ type obsEntry struct {
 
 // Machine is one worker: it executes one path at a time.
 type Machine struct {
+	curFn  *ssa.Function // function of the instruction being executed (for engine error messages)
 	ex     *Explorer
 	prog   *ssa.Program
 	solver *Solver
 
 	// per-path state
-	globals   map[*ssa.Global]*Value
-	prefix    []int
-	pos       int
-	trail     []int
-	pc        []*Term
-	vars      []*Term
-	dom       map[*Term]bset
-	entangled map[*Term]bool
-	ndlog     []ndEntry
-	obs       []obsEntry
-	covers    []string
-	steps     int
-	nvar      int
-	unknown   bool // a feasibility query answered unknown on this path
-	par       *parState
-	poolFree  map[*Value][]Value
-	dumpCache map[any]Value
-	onces     map[*Value]bool
-	ufApps    []ufApp
+	globals    map[*ssa.Global]*Value
+	prefix     []int
+	pos        int
+	trail      []int
+	pc         []*Term
+	vars       []*Term
+	dom        map[*Term]bset
+	entangled  map[*Term]bool
+	ndlog      []ndEntry
+	obs        []obsEntry
+	covers     []string
+	steps      int
+	nvar       int
+	unknown    bool // a feasibility query answered unknown on this path
+	par        *parState
+	poolFree   map[*Value][]Value
+	dumpCache  map[any]Value
+	onces      map[*Value]bool
+	ufApps     []ufApp
 	reCompiles []reCompile
 	refine     []*Term
-	syncMaps  map[*Value]*Map
+	syncMaps   map[*Value]*Map
 
 	// per-worker statistics
 	forks      int
@@ -533,6 +534,7 @@ func (m *Machine) visit(fr *frame, instr ssa.Instruction) int {
 		fmt.Fprintf(os.Stderr, "  %s: %s\n", fr.fn.Name(), instr)
 	}
 	m.fnSteps[fr.fn]++
+	m.curFn = fr.fn
 	switch in := instr.(type) {
 	case *ssa.DebugRef:
 	case *ssa.UnOp:
@@ -655,6 +657,10 @@ func (m *Machine) visit(fr *frame, instr ssa.Instruction) int {
 		fr.env[in] = copyVal(m.get(fr, in.X).(Struct)[in.Field])
 	case *ssa.IndexAddr:
 		x := m.get(fr, in.X)
+		if cell, ok := m.symSelect(fr, in, x, m.get(fr, in.Index), isSignedType(in.Index.Type())); ok {
+			fr.env[in] = cell
+			break
+		}
 		i := m.concIntT(fr, m.get(fr, in.Index), isSignedType(in.Index.Type()))
 		switch a := x.(type) {
 		case []Value:
@@ -697,6 +703,121 @@ func (m *Machine) visit(fr *frame, instr ssa.Instruction) int {
 		unsupported("instruction %T: %s", instr, instr)
 	}
 	return kNext
+}
+
+// symSelect handles t[i] for a symbolic index i when the element address is only ever loaded from
+// (table look-ups such as class[b&0x7f]) and the elements are integers or booleans: instead of
+// forking over every feasible index, the path forks once on "index in range" and the loaded value
+// becomes an if-then-else chain over the elements. The result is a fresh read-only cell.
+func (m *Machine) symSelect(fr *frame, in *ssa.IndexAddr, x, idx Value, signed bool) (*Value, bool) {
+	iv, ok := idx.(Int)
+	if !ok || iv.T == nil {
+		return nil, false
+	}
+	refs := in.Referrers()
+	if refs == nil || len(*refs) == 0 {
+		return nil, false
+	}
+	for _, r := range *refs {
+		if u, ok := r.(*ssa.UnOp); !ok || u.Op != token.MUL {
+			if _, dbg := r.(*ssa.DebugRef); !dbg {
+				return nil, false
+			}
+		}
+	}
+	var elems []Value
+	switch a := x.(type) {
+	case []Value:
+		elems = a
+	case *Value:
+		if a == nil {
+			return nil, false
+		}
+		arr, ok := (*a).(Array)
+		if !ok {
+			return nil, false
+		}
+		elems = arr
+	default:
+		return nil, false
+	}
+	if len(elems) < 2 || len(elems) > 512 {
+		return nil, false
+	}
+	w := 0
+	isBool := false
+	switch e := elems[0].(type) {
+	case Int:
+		_ = e
+		et := in.Type().Underlying().(*types.Pointer).Elem().Underlying()
+		ww, _, ok := intInfo(et)
+		if !ok {
+			return nil, false
+		}
+		w = ww
+	case Bool:
+		isBool = true
+	default:
+		return nil, false
+	}
+	for _, e := range elems {
+		switch e.(type) {
+		case Int:
+			if isBool {
+				return nil, false
+			}
+		case Bool:
+			if !isBool {
+				return nil, false
+			}
+		default:
+			return nil, false
+		}
+	}
+	// bounds: one fork
+	iw := iv.T.W
+	inRange := tBin("bvult", 0, iv.T, bvConst(uint64(len(elems)), iw))
+	if signed {
+		inRange = tAnd(tBin("bvsge", 0, iv.T, bvConst(0, iw)), tBin("bvslt", 0, iv.T, bvConst(uint64(len(elems)), iw)))
+	}
+	if !m.branchIn(fr, mkBool(inRange)) {
+		m.fault(fr, in, fmt.Sprintf("index out of range [symbolic] with length %d", len(elems)))
+	}
+	var out Value
+	if isBool {
+		var t *Term
+		for k := len(elems) - 1; k >= 0; k-- {
+			e := elems[k].(Bool)
+			et := e.T
+			if et == nil {
+				if e.B {
+					et = tEq(iv.T, iv.T)
+				} else {
+					et = tNot(tEq(iv.T, iv.T))
+				}
+			}
+			if t == nil {
+				t = et
+			} else {
+				t = tIte(tEq(iv.T, bvConst(uint64(k), iw)), et, t)
+			}
+		}
+		out = mkBool(t)
+	} else {
+		var t *Term
+		for k := len(elems) - 1; k >= 0; k-- {
+			et := elems[k].(Int).term(w)
+			if t == nil {
+				t = et
+			} else {
+				t = tIte(tEq(iv.T, bvConst(uint64(k), iw)), et, t)
+			}
+		}
+		out = Int{T: t}
+	}
+	cell := new(Value)
+	*cell = out
+	return cell, true
 }
 
 // assignInPlace stores v into the cell p. Structs and arrays are copied element by element into
@@ -1368,10 +1489,10 @@ func (it *mapIter) next(m *Machine) Value {
 }
 
 type strIter struct {
-	s       Str
-	pos     int
-	lazyAt  int   // >=0: the width of the rune at this position is not resolved yet
-	lazyR   *Term // the rune variable handed out for it
+	s      Str
+	pos    int
+	lazyAt int   // >=0: the width of the rune at this position is not resolved yet
+	lazyR  *Term // the rune variable handed out for it
 }
 
 // next implements range-over-string. For a symbolic non-ASCII lead byte the rune
